@@ -278,7 +278,7 @@ class Recording:
         if o.get("open_later") or o.get("never_open"):
             kw["open"] = False
         if o.get("meta_file_arg"):
-            kw["meta_file"] = str(self.meta_file) if self.as_str else self.meta_file
+            kw["meta_file"] = str(self.meta_file) if o.get("meta_file_str") else self.meta_file
         if o.get("ch_file_arg"):
             kw["ch_file"] = self.ch_file
         if self.flat is not None:
@@ -939,13 +939,14 @@ def build_recordings(ctx, tdir):
              dict(access="via_meta", cbin=True, keep_bin=True), dict(meta_file_arg=True, cbin=False),
              dict(meta_file_arg=True, ch_file_arg=True, cbin=True), dict(ch_file_arg=True, cbin=True),
              dict(never_open=True, cbin=False), dict(never_open=True, cbin=True),
+             dict(meta_file_arg=True, meta_file_str=True, cbin=False),
              dict(access="via_meta", meta_ns_delta=-3, ignore_warnings=True, cbin=False)]
     for j, v in enumerate(extra):
         kind = ["NP2.4", "3B2", "nidq", "NPultra", "lf", "NP2.1"][j % 6]
         text, fs, nc, exp = synth_meta(rng, kind, rng.choice([4, 6, 9]), nsync=1)
         ns = rng.choice([11, 19, 30])
-        opts = {kk: v[kk] for kk in ("access", "keep_bin", "meta_file_arg", "ch_file_arg", "never_open",
-                                     "ignore_warnings") if kk in v}
+        opts = {kk: v[kk] for kk in ("access", "keep_bin", "meta_file_arg", "meta_file_str", "ch_file_arg",
+                                     "never_open", "ignore_warnings") if kk in v}
         if "meta_ns_delta" in v:
             opts["meta_ns"] = ns + v["meta_ns_delta"]
         recs.append(dict(name="e_%d" % j, text=text, fs=fs, ns=ns, nc=nc, cbin=v["cbin"], chunk=4,
@@ -1262,7 +1263,8 @@ def check_recording(ctx, rec, stats, work):
                              describe(rec, None, None), dict(ftag, kind="open"))
         else:
             ctx.fail("Reader could not open the mock recording: %r" % (e,), describe(rec, None, None),
-                     dict(ftag, kind="open"))
+                     dict(ftag, kind="open", meta_file="str" if rec.opts.get("meta_file_str") else "default",
+                          error=type(e).__name__))
         for r in readers.values():
             try:
                 r.close()
